@@ -41,6 +41,8 @@ type loopInfo struct {
 }
 
 type Exec struct {
+	captured     map[string]Val
+	callOrd      map[string]int
 	replayAssume []string
 	sweep        bool
 	g            *Gen
@@ -286,6 +288,7 @@ func (ex *Exec) jsEffect(st *State) *State {
 	}
 	oldAlloc := st.get("alloc")
 	n := st.havocAll(ex.keepStable(esc))
+	n.heap["jsfx"] = "true"
 	ex.e.assume(fmt.Sprintf("(forall ((r Ref)) (! (=> (select %s r) (select %s r)) :pattern ((select %s r))))", oldAlloc, n.get("alloc"), n.get("alloc")))
 	return n
 }
@@ -295,7 +298,9 @@ func (ex *Exec) run() {
 	e := ex.e
 	e.regHeap("alloc", "(Array Ref Bool)")
 	e.regHeap("allocA", "(Array ArrRef Bool)")
+	e.regHeap("jsfx", "Bool") // ghost: has unknown code (jsEffect) run on this path?
 	ex.entry = e.newState("0")
+	ex.entry.heap["jsfx"] = "false"
 	ex.st = ex.entry.clone()
 	e.assume(fmt.Sprintf("(not (select %s nil))", ex.entry.get("alloc")))
 	ex.params = map[string]Val{}
@@ -320,8 +325,14 @@ func (ex *Exec) run() {
 		ex.vals[fv] = ex.paramVal("fv_"+fv.Name(), fv.Type())
 	}
 	if ex.con != nil {
+		capt := map[string]bool{}
+		for _, c := range ex.con.Captures {
+			capt[c[0]] = true
+		}
 		for _, gp := range ex.con.Ghost {
-			ex.unsup("ghost parameters are not supported yet (%s)", gp.Name)
+			if !capt[gp.Name] {
+				ex.unsup("ghost parameters are not supported yet (%s)", gp.Name)
+			}
 		}
 	}
 	// axioms
@@ -1141,6 +1152,27 @@ func (ex *Exec) resultMap(vals []Val) map[string]Val {
 		for i, r := range ex.con.Results {
 			if i < len(vals) {
 				m[r.Name] = vals[i]
+			}
+		}
+		for _, c := range ex.con.Captures {
+			if v, ok := ex.captured[c[0]]; ok {
+				m[c[0]] = v
+			} else {
+				// the call did not happen on this path: unconstrained
+				for _, cl := range append(append([]*Clause{}, ex.con.Ensures...), ex.con.EnsuresPanic...) {
+					if cl.Fn == nil {
+						continue
+					}
+					for i, nm := range cl.Names {
+						if nm == c[0] {
+							m[c[0]] = ex.env.freshVal("cap_"+c[0], cl.Fn.Params[i].Type())
+						}
+					}
+					if _, ok := m[c[0]]; ok {
+						break
+					}
+				}
+				ex.flushFacts()
 			}
 		}
 	}
